@@ -9,6 +9,7 @@
 package main
 
 import (
+	"context"
 	"encoding/json"
 	"flag"
 	"fmt"
@@ -687,12 +688,19 @@ func runRace(bin, scratch string, seed uint64, jobs int, deadline time.Time, fir
 		b, _ := json.Marshal(sp)
 		_ = os.WriteFile(specPath, b, 0644)
 		go func() {
-			cmd := exec.Command(bin, "-test.run", "^TestRaceArm$", "-test.timeout", "0")
+			// hard limit: a free-running workload can block for ever on a tree that leaks a lock (that verdict
+			// belongs to the scheduler arm); the worker is then killed, which is not a finding of this arm
+			ctx, cancel := context.WithDeadline(context.Background(), deadline.Add(90*time.Second))
+			defer cancel()
+			cmd := exec.CommandContext(ctx, bin, "-test.run", "^TestRaceArm$", "-test.timeout", "0")
 			cmd.Env = append(os.Environ(), "VERIF_RACE_SPEC="+specPath, "VERIF_DIR="+verifDir, "GORACE=halt_on_error=1 exitcode=66")
 			cmd.Dir = scratch
 			out, err := cmd.CombinedOutput()
 			code := 0
-			if ee, ok := err.(*exec.ExitError); ok {
+			if ctx.Err() != nil {
+				code = 0 // killed at the hard limit: no verdict from this worker
+				out = append(out, []byte("\nrace worker killed at its hard time limit\n")...)
+			} else if ee, ok := err.(*exec.ExitError); ok {
 				code = ee.ExitCode()
 			} else if err != nil {
 				code = 2
